@@ -95,6 +95,15 @@ def oracle(run: runner.Run, oc: Outcome) -> None:
                     oc.add('C14/repeated', 'on-stale-view-while-exiting' if blind_at_exit else 'twice-in-one-process',
                            f"resume handler {hid} completed {len(finals)} times for {uid} in process {actor} "
                            f"(at t={[round(c.t0, 3) for c in finals]}); listings seen: {len(listings)}", uid=uid, hid=hid)
+                # not for objects being deleted, unless the handler opted in
+                if not h.get('opts', {}).get('deleted'):
+                    for c in calls:
+                        v_ = snaps.get((uid, c.rv))
+                        if v_ is not None and (v_.get('metadata') or {}).get('deletionTimestamp') is not None:
+                            oc.add('C14/not-eligible', 'deleting-without-opt-in',
+                                   f"resume handler {hid} (no deleted=True) ran for {uid}@{c.rv} in process {actor} although "
+                                   f"that view carries a deletion mark", uid=uid, hid=hid)
+                            break
                 if calls and not listed_first:
                     oc.add('C14/not-eligible', 'first-seen-by-event',
                            f"resume handler {hid} ran for {uid} in process {actor} although the object was first seen "
